@@ -183,9 +183,11 @@ class Scheduler:
 # ---------------------------------------------------------------------------------------------
 # pc tables: synchronisation point at which a logical thread is parked -> pc of spec/Executor.tla
 
-SUB_PC = {"is_set": "idle", "lock_acquire": "checked", "lock_acquired": "locked", "lock_release": "started",
+# submit(): `with self._lock:` (lock_acquire) -> `self._shutdown.is_set()` (is_set) -> append/start (after_check,
+# an extra point directly behind the flag test so that H_SetFlag can fall between test and append) -> release
+SUB_PC = {"lock_acquire": "idle", "is_set": "locked", "after_check": "checked", "lock_release": None,  # see sub_pc
           "result": "waiting"}
-SHUT_PC = {"set": "idle", "after_set": "snapshot", "lock_acquire": "flagged", "lock_acquired": "locked",
+SHUT_PC = {"set": "idle", "lock_acquire": "flagged", "lock_acquired": "locked",
            "wait_tasks": "waitcancels", "lock_release": "unlock", "result": "joining"}
 WRK_PC = {"popen": "spawned", "communicate": "communicating", "poll": "finally", "ps": "cancelling",
           "term": "cancelling", "wait": "cancelling", "kill": "cancelling", "close": "cancelling",
@@ -198,6 +200,17 @@ LABEL_KINDS = {"S_": ("sub",), "R_": ("sub",), "H_": ("shut",), "W_": ("wrk",), 
 
 def _true():
     return True
+
+
+def sub_pc(lt) -> str:
+    op = lt.pending.op
+    if op == "lock_release":  # released after the registration, or on the way out with ShutdownError
+        return "started" if ("after_check" in lt.ops or "lock_acquired" in lt.ops) else "rejecting"
+    if "is_set" in lt.ops[:-1] and op in ("lock_acquire", "lock_acquired"):  # old order (negative control)
+        return {"lock_acquire": "checked", "lock_acquired": "locked"}[op]
+    if op == "is_set" and lt.ops == ["is_set"]:  # old order: the flag test is the first thing submit does
+        return "idle"
+    return SUB_PC.get(op) or f"?{op}"
 
 
 # ---------------------------------------------------------------------------------------------
@@ -413,7 +426,7 @@ class Replay:
             if lt.finished:
                 o["spc"][j] = self.sub_out[j] if lt.error is None else f"died:{type(lt.error).__name__}"
             else:
-                o["spc"][j] = SUB_PC.get(lt.pending.op, f"?{lt.pending.op}")
+                o["spc"][j] = sub_pc(lt)
             w = th.get(("wrk", j))
             if w is None:
                 o["wpc"][j], o["cw"][j] = "idle", "none"
@@ -543,15 +556,18 @@ class FakeEvent:
         self.flag = False
 
     def is_set(self):
-        _sched().yield_point("is_set", {"S_Check": _true})
-        return self.flag
+        s = _sched()
+        s.yield_point("is_set", {"S_Check": _true})
+        v = self.flag
+        cur = s.current()
+        if not v and cur.key[0] == "sub" and _rp().ex._lock.owner == cur.key:
+            # flag tested under the lock (code after 929919f): the registration is the next action
+            s.yield_point("after_check", {"S_AppendStart": _true})
+        return v
 
     def set(self):
-        s = _sched()
-        s.yield_point("set", {"H_SetFlag": _true})
+        _sched().yield_point("set", {"H_SetFlag": _true})
         self.flag = True
-        if _rp().mode == "wait":
-            s.yield_point("after_set", {"H_Snapshot": _true})
 
 
 class FakeLock:
@@ -565,14 +581,24 @@ class FakeLock:
         if self.owner is not None:
             raise MachineryError("scheduler let a thread acquire a held lock")
         self.owner = s.current().key
-        s.yield_point("lock_acquired", {"S_AppendStart": _true, "H_CancelAll": _true})
+        cur = s.current()
+        if self.owner[0] == "shut":  # what shutdown does under the lock is one action of its own
+            nowait = _rp().mode == "nowait"
+            s.yield_point("lock_acquired", {"H_CancelAll": lambda: nowait, "H_Snapshot": lambda: not nowait})
+        elif "is_set" in cur.ops:
+            # flag tested BEFORE the lock was taken (order of the code before 929919f; only reached by the
+            # negative control that substitutes the old submit): the registration follows the acquire
+            s.yield_point("lock_acquired", {"S_AppendStart": _true})
         return True
 
     def release(self):
         s = _sched()
-        s.yield_point("lock_release", {"S_Unlock": _true, "H_Unlock": _true})
-        if self.owner != s.current().key:
-            raise Divergence("lock", f"{s.current().key} releases a lock owned by {self.owner}")
+        cur = s.current()
+        appended = "after_check" in cur.ops or "lock_acquired" in cur.ops
+        s.yield_point("lock_release", {"S_Unlock": lambda: appended, "S_Reject": lambda: not appended,
+                                       "H_Unlock": _true})
+        if self.owner != cur.key:
+            raise Divergence("lock", f"{cur.key} releases a lock owned by {self.owner}")
         self.owner = None
 
     __enter__ = acquire
